@@ -184,6 +184,12 @@ def _child(spec: dict) -> dict:  # noqa: C901, PLR0915, PLR0912
         ev.update(info)
         log.append(ev)
         inject = cur["inject"]
+        if inject and inject.get("sticky") and st["injected"] is not None and inject["site"] == site:
+            # a callback that keeps failing: every later invocation raises the same fault again
+            log.append({"site": "inject_again", "at": site, "k": k})
+            if inject["kind"] == "exit":
+                raise urwid.ExitMainLoop()
+            raise faults[inject["kind"]]
         if inject and st["injected"] is None and inject["site"] == site and inject["k"] == k:
             st["injected"] = len(log)
             log.append({"site": "inject", "at": site, "k": k, "kind": inject["kind"]})
@@ -204,6 +210,8 @@ def _child(spec: dict) -> dict:  # noqa: C901, PLR0915, PLR0912
         _sizing = frozenset([urwid.BOX])
         _selectable = True
         ignore_focus = False
+        # always_render: never served from the canvas cache, every redraw really calls render()
+        no_cache = ["render"] if spec.get("always_render") else []  # noqa: RUF012
 
         def __init__(self, name: str, selectable: bool = True, handled=("a", "p", "c", "x", "y", "w", "begin paste", "end paste")) -> None:
             super().__init__()
@@ -261,7 +269,16 @@ def _child(spec: dict) -> dict:  # noqa: C901, PLR0915, PLR0912
     SWAP_KEYS = {"n": "N", "s": "T", "m": "M"}  # handled by unhandled_input: loop.widget = that page
 
     def input_filter(keys, raw):
-        enter("filter", keys=[k if isinstance(k, str) else list(k) for k in keys], nraw=len(raw))
+        via = "input"
+        f = sys._getframe(1)
+        names = []
+        while f is not None and len(names) < 40:
+            names.append(f.f_code.co_name)
+            f = f.f_back
+        if "hook_event_loop" in names:
+            # called while the screen re-hooks its descriptors (a partial sequence is pending): from where?
+            via = "rehook-in-screen-stop" if "_stop" in names else ("rehook-in-screen-start" if "_start" in names else ("rehook-in-loop-start" if "start" in names else "rehook"))
+        enter("filter", keys=[k if isinstance(k, str) else list(k) for k in keys], nraw=len(raw), via=via)
         return [k for k in keys if k != "z"]
 
     def unhandled(key):
@@ -541,6 +558,11 @@ def _child(spec: dict) -> dict:  # noqa: C901, PLR0915, PLR0912
                 log.append({"site": "step2", "n": n, "t": time.monotonic(), "first_read_seen": i1 is not None})
                 os.write(master, arg[1].encode("latin-1"))
                 wait_for(lambda i0=len(log): settled(i0, "filter"), STEP_WAIT)
+            elif kind == "part1":
+                # only the FIRST fragment of a key: it stays pending in the screen until a later step completes it
+                os.write(master, arg.encode("latin-1"))
+                ok = wait_for(lambda i0=i0: seen_after(i0, "filter", keys=[]) is not None, STEP_WAIT)
+                log.append({"site": "part1_read", "n": n, "ok": bool(ok), "t": time.monotonic()})
             elif kind == "hold":
                 # keep the loop waiting until `arg` seconds after the last split's first fragment was read
                 end = hold["t"] + float(arg)
